@@ -115,7 +115,9 @@ Context (of_wire : W -> R) (within notbelow : R -> B -> bool).
     nonterminal whose exact lower bound (Kleene iterate / exact solution of a linearly recursive
     component) already has an infinite cell is outside that guard (verdict 31, discarded and counted):
     the float solvers return huge finite values there when 1 - a is not float-exact (that class is
-    C09's known finding about divergent systems, not a C02 violation). *)
+    C09's known finding about divergent systems, not a C02 violation).  The same holds when the model's
+    exact Newton iterate has an infinite cell (a Jacobian pivot with star = inf): Newton iterates lie below
+    the least fixed point (C02_newton_sandwich), so the sum-product is infinite. *)
 Context (isfin : R -> bool).
 
 (** k Newton passes / k Kleene steps on one component; [all] holds the values of all labels
@@ -164,7 +166,7 @@ Definition newton_check (x : grammar_w * list (nat * list W) * nat * list (nat *
     worst (map (fun X =>
                   match obs_get obs X, tmt_get model X, tmt_get lo X with
                   | Some ob, Some mt, Some lt =>
-                    if negb (forallb (fun c => isfin (snd c)) lt) then 31 else
+                    if negb (forallb (fun c => isfin (snd c)) lt) || negb (forallb (fun c => isfin (snd c)) mt) then 31 else
                     if negb (cells_all notbelow lt ob) then 1
                     else if negb (cells_all within mt ob) then 10 else 0
                   | None, _, _ => 4
